@@ -24,6 +24,7 @@
 #include <algorithm>
 #include <chrono>
 #include <iomanip>
+#include <limits>
 #include <map>
 #include <memory>
 #include <optional>
@@ -430,7 +431,14 @@ int BaseKillPlugin::getAndTryToKillPids(const CgroupContext& target) {
   errno = 0;
   while ((read = ::getline(&line, &len, fp)) != -1) {
     OCHECK(line != nullptr);
-    pids.push_back(std::stoi(line));
+    // skip anything that is not a pid instead of letting std::stoi throw
+    char* end = nullptr;
+    long pid = ::strtol(line, &end, 10);
+    if (end == line || (*end != '\n' && *end != '\0') ||
+        pid > std::numeric_limits<int>::max()) {
+      continue;
+    }
+    pids.push_back(static_cast<int>(pid));
     if (pids.size() == streamSize) {
       nrKilled += tryToKillPids(pids);
       pids.clear();
